@@ -1,3 +1,299 @@
-//! Solver harnesses mounted into rs-matter/src/tlv/write.rs
+//! C16 - round-trip harnesses (writer -> reader, reader -> writer), mounted into
+//! rs-matter/src/tlv/write.rs.
 #![allow(unused_imports, dead_code)]
 use super::*;
+use crate::tlv::{TLVElement, TLVSequence, TLVTag, TLVValue, ToTLV};
+use crate::utils::storage::WriteBuf;
+use crate::verif_support::*;
+use crate::{vassert, vcover, vok};
+
+/// An arbitrary tag of any of the 8 tag forms.
+pub(crate) fn any_tag() -> TLVTag {
+    let k = any_u8();
+    assume(k < 8);
+    match k {
+        0 => TLVTag::Anonymous,
+        1 => TLVTag::Context(any_u8()),
+        2 => TLVTag::CommonPrf16(any_u16()),
+        3 => TLVTag::CommonPrf32(any_u32()),
+        4 => TLVTag::ImplPrf16(any_u16()),
+        5 => TLVTag::ImplPrf32(any_u32()),
+        6 => TLVTag::FullQual48 {
+            vendor_id: any_u16(),
+            profile: any_u16(),
+            tag: any_u16(),
+        },
+        _ => TLVTag::FullQual64 {
+            vendor_id: any_u16(),
+            profile: any_u16(),
+            tag: any_u32(),
+        },
+    }
+}
+
+/// read(write(v)) = v for ONE scalar kind and ONE tag form (tag payload and value symbolic).
+/// The writers pick the smallest width that holds the value, so even this has value-dependent
+/// offsets (measured: u8 1 s, u16 5 s, three kinds in one harness 78 s) - hence one harness per
+/// kind (with a context tag) and one per tag form (with a u8 / u64 value).
+fn rt_scalar(tag: TLVTag, kind: u8) {
+    let v = any_u64();
+    let mut buf = [0u8; 18];
+    let mut wb = WriteBuf::new(&mut buf);
+    let r = match kind {
+        0 => wb.u8(&tag, v as u8),
+        1 => wb.u16(&tag, v as u16),
+        2 => wb.u32(&tag, v as u32),
+        3 => wb.u64(&tag, v),
+        4 => wb.i8(&tag, v as i8),
+        5 => wb.i16(&tag, v as i16),
+        6 => wb.i32(&tag, v as i32),
+        7 => wb.i64(&tag, v as i64),
+        8 => wb.bool(&tag, v & 1 == 1),
+        _ => wb.null(&tag),
+    };
+    vok!(r, "write-into-large-enough-buffer-succeeds");
+    let len = wb.get_tail();
+    vassert!(len <= 17, "ROLE:scalar-encoding-at-most-1+8+8-bytes");
+    let e = TLVElement::new(&buf[..len]);
+    vassert!(e.tag().ok() == Some(tag.clone()), "ROLE:tag-roundtrip");
+    match kind {
+        0 => vassert!(e.u8().ok() == Some(v as u8), "ROLE:u8-roundtrip"),
+        1 => vassert!(e.u16().ok() == Some(v as u16), "ROLE:u16-roundtrip"),
+        2 => vassert!(e.u32().ok() == Some(v as u32), "ROLE:u32-roundtrip"),
+        3 => vassert!(e.u64().ok() == Some(v), "ROLE:u64-roundtrip"),
+        4 => vassert!(e.i8().ok() == Some(v as i8), "ROLE:i8-roundtrip"),
+        5 => vassert!(e.i16().ok() == Some(v as i16), "ROLE:i16-roundtrip"),
+        6 => vassert!(e.i32().ok() == Some(v as i32), "ROLE:i32-roundtrip"),
+        7 => vassert!(e.i64().ok() == Some(v as i64), "ROLE:i64-roundtrip"),
+        8 => vassert!(e.bool().ok() == Some(v & 1 == 1), "ROLE:bool-roundtrip"),
+        _ => vassert!(e.null().is_ok(), "ROLE:null-roundtrip"),
+    }
+    // (no `container_len()` here: with a value-dependent element type the container walker is
+    // unwound to the bound on infeasible paths - the decoded length is checked on arbitrary
+    // bytes against a reference in tlv_read.rs instead)
+    vcover!(len > 2);
+}
+
+macro_rules! rt_harness {
+    ($name:ident, $tag:expr, $kind:expr) => {
+        #[cfg_attr(kani, kani::proof)]
+        #[cfg_attr(kani, kani::unwind(20))]
+        #[cfg_attr(not(kani), test)]
+        fn $name() {
+            rt_scalar($tag, $kind);
+        }
+    };
+}
+// every scalar kind under a context tag
+rt_harness!(c16_q_roundtrip_ctx_u8, TLVTag::Context(any_u8()), 0);
+rt_harness!(c16_q_roundtrip_ctx_u16, TLVTag::Context(any_u8()), 1);
+rt_harness!(c16_q_roundtrip_ctx_u32, TLVTag::Context(any_u8()), 2);
+rt_harness!(c16_q_roundtrip_ctx_u64, TLVTag::Context(any_u8()), 3);
+rt_harness!(c16_q_roundtrip_ctx_i8, TLVTag::Context(any_u8()), 4);
+rt_harness!(c16_q_roundtrip_ctx_i16, TLVTag::Context(any_u8()), 5);
+rt_harness!(c16_q_roundtrip_ctx_i32, TLVTag::Context(any_u8()), 6);
+rt_harness!(c16_q_roundtrip_ctx_i64, TLVTag::Context(any_u8()), 7);
+rt_harness!(c16_q_roundtrip_ctx_bool, TLVTag::Context(any_u8()), 8);
+rt_harness!(c16_q_roundtrip_ctx_null, TLVTag::Context(any_u8()), 9);
+// every tag form with a u8 value (quick) ...
+rt_harness!(c16_q_roundtrip_tag_anonymous_u8, TLVTag::Anonymous, 0);
+rt_harness!(c16_q_roundtrip_tag_common16_u8, TLVTag::CommonPrf16(any_u16()), 0);
+rt_harness!(c16_q_roundtrip_tag_common32_u8, TLVTag::CommonPrf32(any_u32()), 0);
+rt_harness!(c16_q_roundtrip_tag_impl16_u8, TLVTag::ImplPrf16(any_u16()), 0);
+rt_harness!(c16_q_roundtrip_tag_impl32_u8, TLVTag::ImplPrf32(any_u32()), 0);
+rt_harness!(
+    c16_q_roundtrip_tag_fq48_u8,
+    TLVTag::FullQual48 {
+        vendor_id: any_u16(),
+        profile: any_u16(),
+        tag: any_u16(),
+    },
+    0
+);
+rt_harness!(
+    c16_q_roundtrip_tag_fq64_u8,
+    TLVTag::FullQual64 {
+        vendor_id: any_u16(),
+        profile: any_u16(),
+        tag: any_u32(),
+    },
+    0
+);
+// ... and with the widest values (thorough)
+rt_harness!(c16_t_roundtrip_tag_anonymous_u64, TLVTag::Anonymous, 3);
+rt_harness!(c16_t_roundtrip_tag_common32_i64, TLVTag::CommonPrf32(any_u32()), 7);
+rt_harness!(
+    c16_t_roundtrip_tag_fq64_u64,
+    TLVTag::FullQual64 {
+        vendor_id: any_u16(),
+        profile: any_u16(),
+        tag: any_u32(),
+    },
+    3
+);
+
+/// Octet strings of 0..=4 bytes written through the `tlv()` writer with one of the four
+/// length-field widths, read back equal.
+fn rt_string(w: u8) {
+    let data: [u8; 4] = any_bytes::<4>();
+    let tag = TLVTag::Context(any_u8());
+    let n = any_usize();
+    assume(n <= 4);
+    let mut buf = [0u8; 16];
+    let val = match w {
+        0 => TLVValue::Str8l(&data[..n]),
+        1 => TLVValue::Str16l(&data[..n]),
+        2 => TLVValue::Str32l(&data[..n]),
+        _ => TLVValue::Str64l(&data[..n]),
+    };
+    let mut wb = WriteBuf::new(&mut buf);
+    vok!(wb.tlv(&tag, &val), "write-into-large-enough-buffer-succeeds");
+    let len = wb.get_tail();
+    vassert!(len == 2 + (1usize << w) + n, "ROLE:string-encoding-length");
+    let e = TLVElement::new(&buf[..len]);
+    vassert!(e.tag().ok() == Some(tag.clone()), "ROLE:tag-roundtrip");
+    let back = vok!(e.str(), "written-string-decodes");
+    vassert!(back.len() == n, "ROLE:string-length-roundtrip");
+    let mut i = 0;
+    while i < n {
+        vassert!(back[i] == data[i], "ROLE:string-bytes-roundtrip");
+        i += 1;
+    }
+    vassert!(TLVSequence(&buf[..len]).container_len().ok() == Some(len), "ROLE:written-length-equals-decoded-length");
+    vcover!(n == 4);
+    vcover!(n == 0);
+}
+macro_rules! rt_string_harness {
+    ($name:ident, $w:expr) => {
+        #[cfg_attr(kani, kani::proof)]
+        #[cfg_attr(kani, kani::unwind(16))]
+        #[cfg_attr(not(kani), test)]
+        fn $name() {
+            rt_string($w);
+        }
+    };
+}
+rt_string_harness!(c16_q_roundtrip_string_len8, 0);
+rt_string_harness!(c16_q_roundtrip_string_len16, 1);
+rt_string_harness!(c16_t_roundtrip_string_len32, 2);
+rt_string_harness!(c16_q_roundtrip_string_len64, 3);
+
+/// `str()` writer (picks the smallest length width itself).
+#[cfg_attr(kani, kani::proof)]
+#[cfg_attr(kani, kani::unwind(10))]
+#[cfg_attr(not(kani), test)]
+fn c16_q_roundtrip_str_writer() {
+    let mut buf = [0u8; 10];
+    let data: [u8; 4] = any_bytes::<4>();
+    let n = any_usize();
+    assume(n <= 4);
+    let c = any_u8();
+    let mut wb = WriteBuf::new(&mut buf);
+    vok!(wb.str(&TLVTag::Context(c), &data[..n]), "write-into-large-enough-buffer-succeeds");
+    let len = wb.get_tail();
+    let e = TLVElement::new(&buf[..len]);
+    vassert!(e.ctx().ok() == Some(c), "ROLE:tag-roundtrip");
+    let back = vok!(e.str(), "written-string-decodes");
+    vassert!(back.len() == n, "ROLE:string-length-roundtrip");
+    let mut i = 0;
+    while i < n {
+        vassert!(back[i] == data[i], "ROLE:string-bytes-roundtrip");
+        i += 1;
+    }
+}
+
+/// A struct with two scalar members: both are found by context tag and read back; the
+/// container's length is the written length.
+#[cfg_attr(kani, kani::proof)]
+#[cfg_attr(kani, kani::unwind(14))]
+#[cfg_attr(not(kani), test)]
+fn c16_t_roundtrip_struct_two_members() {
+    let mut buf = [0u8; 12];
+    let a = any_u16();
+    let b = any_u8();
+    let mut wb = WriteBuf::new(&mut buf);
+    vok!(wb.start_struct(&TLVTag::Anonymous), "write-into-large-enough-buffer-succeeds");
+    vok!(wb.u16(&TLVTag::Context(1), a), "write-into-large-enough-buffer-succeeds");
+    vok!(wb.u8(&TLVTag::Context(2), b), "write-into-large-enough-buffer-succeeds");
+    vok!(wb.end_container(), "write-into-large-enough-buffer-succeeds");
+    let len = wb.get_tail();
+    let e = TLVElement::new(&buf[..len]);
+    let st = vok!(e.structure(), "written-struct-decodes");
+    vassert!(st.ctx(1).and_then(|m| m.u16()).ok() == Some(a), "ROLE:struct-member-roundtrip");
+    vassert!(st.ctx(2).and_then(|m| m.u8()).ok() == Some(b), "ROLE:struct-member-roundtrip");
+    vassert!(TLVSequence(&buf[..len]).container_len().ok() == Some(len), "ROLE:written-length-equals-decoded-length");
+}
+
+/// Re-encoding a decoded single element reproduces its bytes: for every byte string <= 6 that
+/// decodes as ONE non-container element spanning the whole input.
+#[cfg_attr(kani, kani::proof)]
+#[cfg_attr(kani, kani::unwind(12))]
+#[cfg_attr(not(kani), test)]
+fn c16_q_reencode_single_element_6() {
+    let b: [u8; 6] = any_bytes::<6>();
+    let len = any_usize();
+    assume(len >= 1 && len <= 6);
+    let e = TLVElement::new(&b[..len]);
+    let ctl = match e.control() {
+        Ok(c) => c,
+        Err(_) => return,
+    };
+    if ctl.value_type.is_container() || ctl.value_type.is_container_end() {
+        return;
+    }
+    let (tag, total) = match (e.tag(), TLVSequence(&b[..len]).container_len()) {
+        (Ok(t), Ok(l)) => (t, l),
+        _ => return,
+    };
+    if total != len || e.raw_value().is_err() {
+        return;
+    }
+    vcover!(len == 6);
+    vcover!(ctl.value_type.variable_size_len() == 2);
+    let mut out = [0u8; 8];
+    let mut wb = WriteBuf::new(&mut out);
+    vok!(e.to_tlv(&tag, &mut wb), "reencode-succeeds");
+    let olen = wb.get_tail();
+    vassert!(olen == len, "ROLE:reencode-same-length");
+    let mut i = 0;
+    while i < len {
+        vassert!(out[i] == b[i], "ROLE:reencode-same-bytes");
+        i += 1;
+    }
+}
+
+/// ... and for a container (struct/array/list) of <= 6 bytes in total.
+#[cfg_attr(kani, kani::proof)]
+#[cfg_attr(kani, kani::unwind(9))]
+#[cfg_attr(not(kani), test)]
+fn c16_t_reencode_container_6() {
+    let b: [u8; 6] = any_bytes::<6>();
+    let len = any_usize();
+    assume(len >= 2 && len <= 6);
+    let e = TLVElement::new(&b[..len]);
+    let ctl = match e.control() {
+        Ok(c) => c,
+        Err(_) => return,
+    };
+    if !ctl.value_type.is_container() {
+        return;
+    }
+    let (tag, total) = match (e.tag(), TLVSequence(&b[..len]).container_len()) {
+        (Ok(t), Ok(l)) => (t, l),
+        _ => return,
+    };
+    if total != len {
+        return;
+    }
+    vcover!(len == 6);
+    let mut out = [0u8; 8];
+    let mut wb = WriteBuf::new(&mut out);
+    vok!(e.to_tlv(&tag, &mut wb), "reencode-succeeds");
+    let olen = wb.get_tail();
+    vassert!(olen == len, "ROLE:reencode-same-length");
+    let mut i = 0;
+    while i < len {
+        vassert!(out[i] == b[i], "ROLE:reencode-same-bytes");
+        i += 1;
+    }
+}
